@@ -102,7 +102,8 @@ MinTimers(m, c) == {t \in Heap(m, c) : m[t].tgt = MinTarget(m, c)}       \* dth_
 HeapTouched(m1) ==
     /\ dirty' = TRUE
     /\ np' = [c \in Clocks |->
-                IF Mut = "noreprog" /\ MinTarget(m1, c) > MinTarget(tm, c) THEN np[c]    \* mutant: removal of the minimum
+                IF Mut = "noreprog" /\ MinTarget(m1, c) < MinTarget(tm, c) THEN np[c]    \* mutant: a new, earlier minimum
+                ELSE IF Mut = "noreprog_removed" /\ MinTarget(m1, c) > MinTarget(tm, c) THEN np[c]  \* (benign, see below)
                 ELSE np[c] \/ MinTarget(tm, c) # MinTarget(m1, c)]
 HeapUntouched == UNCHANGED <<dirty, np>>
 TouchIf(b, m1) == IF b THEN HeapTouched(m1) ELSE HeapUntouched
@@ -365,14 +366,17 @@ OnlyNewConfig == viol # "OnlyNewConfig"
 AfterAtMostOnce == viol # "AfterAtMostOnce"
 
 Programmed(c) == ken[c] /\ kt[c] <= MinTarget(tm, c)
+DueCached(c) == MinTarget(tm, c) <= CachedNow(c)
 \* the safety core of "always fires": a non-empty heap has its kernel timer programmed at or before the
-\* minimum target, or the manager is committed to (re)program it before it blocks again
+\* minimum target, or the manager is committed to fire / (re)program it before it blocks again.
+\* (Forgetting to reprogram when the minimum is REMOVED is harmless here: the kernel timer then expires
+\*  early, _dispatch_event_merge_timer forces dth_needs_program; mutant "noreprog_removed" is NOT refuted.)
 ArmedImpliesProgrammed ==
     \A c \in Clocks : Heap(tm, c) # {} =>
         \/ Programmed(c)
         \/ mpc = "q" /\ np[c] /\ dirty
-        \/ mpc = "run" /\ np[c]
-        \/ mpc = "prog" /\ (dirty \/ (np[c] /\ mi <= c))
+        \/ mpc = "run" /\ (np[c] \/ (mi <= c /\ DueCached(c)))
+        \/ mpc = "prog" /\ ((np[c] /\ mi <= c) \/ (dirty /\ DueCached(c)))
 NothingLeftDirty == mpc = "w" => ~dirty
 
 TypeOK == /\ \A c \in Clocks : now[c] \in 0..Horizon /\ kt[c] \in 0..INF
